@@ -152,3 +152,14 @@ func scalarGrid(rng *rand.Rand, q *big.Int) []*big.Int {
 		randInt(rng, 256), randInt(rng, 255), randInt(rng, 300), randInt(rng, 248), randInt(rng, 64)}
 	return g
 }
+
+type bigInt = big.Int
+
+func itoa(n int) string { return strconv.Itoa(n) }
+
+func min(a, b int) int {
+	if a < b {
+		return a
+	}
+	return b
+}
